@@ -573,6 +573,67 @@ func (ex *Exec) strEq(x, y value) value {
 			return r
 		}
 	}
+	// differently shaped strings: decided when their literal prefixes or suffixes already conflict, or when one side is
+	// a pure literal that cannot contain the other side's fixed parts
+	litPrefix := func(segs []Seg) string {
+		p := ""
+		for _, sg := range segs {
+			if sg.K != segLit {
+				break
+			}
+			p += sg.S
+		}
+		return p
+	}
+	litSuffix := func(segs []Seg) string {
+		p := ""
+		for i := len(segs) - 1; i >= 0; i-- {
+			if segs[i].K != segLit {
+				break
+			}
+			p = segs[i].S + p
+		}
+		return p
+	}
+	allLit := func(segs []Seg) bool {
+		for _, sg := range segs {
+			if sg.K != segLit {
+				return false
+			}
+		}
+		return true
+	}
+	px, py := litPrefix(xs), litPrefix(ys)
+	n := len(px)
+	if len(py) < n {
+		n = len(py)
+	}
+	if px[:n] != py[:n] {
+		return false
+	}
+	sx, sy := litSuffix(xs), litSuffix(ys)
+	n = len(sx)
+	if len(sy) < n {
+		n = len(sy)
+	}
+	if sx[len(sx)-n:] != sy[len(sy)-n:] {
+		return false
+	}
+	// a pure literal shorter than the other side's fixed text (every symbolic segment renders at least one byte)
+	minLen := func(segs []Seg) int {
+		l := 0
+		for _, sg := range segs {
+			if sg.K == segLit {
+				l += len(sg.S)
+			} else {
+				l++
+			}
+		}
+		return l
+	}
+	if allLit(xs) && len(px) < minLen(ys) || allLit(ys) && len(py) < minLen(xs) {
+		return false
+	}
 	panic(pathEnd{kind: endUnsupported, msg: "equality of differently shaped symbolic strings"})
 }
 
